@@ -243,6 +243,9 @@ class group_generic:
             '-1 <= absorbed_to', 'absorbed_to < IT0.N', '0 <= tidx_offset', 'tidx_offset <= max(IT0.K, absorbed_to)',
             'SUFFIX(tlist, max(IT0.K, absorbed_to + 1) - tidx_offset, IT0.SEQ, max(IT0.K, absorbed_to + 1))',
             'prev_ is None or (pidx is not None and 0 <= pidx and pidx <= max(IT0.K, absorbed_to) - tidx_offset)',
+            # C11: every kind of whitespace (blank, tab, line break) is skipped alike: the remembered neighbour of an
+            # infix token is never a whitespace token
+            'prev_ is None or prev_.is_whitespace == False',
         ]}}
     requires = []
     ensures = []
